@@ -93,6 +93,18 @@ def g_pair(a, b):
 # ----------------------------------------------------------------------------
 # Coq build and evaluation
 
+def par(n=None):
+    """worker count: all cores when the machine is ours, fewer when it is oversubscribed"""
+    n = n or NPROC
+    try:
+        load = os.getloadavg()[0]
+    except OSError:
+        return n
+    if load > 24:
+        return max(2, min(n, int(n * 12 / load)))
+    return n
+
+
 def _run(cmd, cwd=None, timeout=900, env=None):
     try:
         p = subprocess.run(cmd, cwd=cwd, timeout=timeout, env=env,
@@ -132,7 +144,7 @@ def coq_build(timeout=1500):
             rc, out = _run(['coq_makefile', '-f', '_CoqProject', '-o', 'Makefile'], cwd=COQ, timeout=120)
             if rc != 0:
                 return False, out
-        rc, out = _run(['make', '-k', '-j%d' % NPROC], cwd=COQ, timeout=timeout)
+        rc, out = _run(['make', '-k', '-j%d' % par()], cwd=COQ, timeout=timeout)
         return rc == 0, out
 
 
@@ -220,7 +232,7 @@ def coq_failing(imports, fn, cases, shard=400, timeout=600, defs=''):
         return base, idx, None
 
     fails, err = [], None
-    with ThreadPoolExecutor(max_workers=NPROC) as ex:
+    with ThreadPoolExecutor(max_workers=par()) as ex:
         for base, idx, e in ex.map(one, shards):
             if e and not err:
                 err = 'shard %d: %s' % (base, e)
@@ -263,7 +275,7 @@ def coq_eval_N_lists(imports, fn, cases, shard=400, timeout=600, defs=''):
         return base, val, None
 
     res, err = [None] * len(cases), None
-    with ThreadPoolExecutor(max_workers=NPROC) as ex:
+    with ThreadPoolExecutor(max_workers=par()) as ex:
         for base, val, e in ex.map(one, shards):
             if e and not err:
                 err = 'shard %d: %s' % (base, e)
@@ -494,12 +506,7 @@ def pmap(fn, items, procs=NPROC, chunksize=4, timeout=1800):
         return []
     _assert_no_helper_in_parent()
     ctx = mp.get_context('fork')
-    try:    # be a good neighbour when the machine is oversubscribed (many checks running at once)
-        load = os.getloadavg()[0]
-        if load > 24:
-            procs = max(3, min(procs, int(procs * 16 / load)))
-    except OSError:
-        pass
+    procs = par(procs)
     with ctx.Pool(min(procs, len(items)), initializer=_worker_init) as pool:
         r = pool.map_async(fn, items, chunksize=chunksize)
         return r.get(timeout)
